@@ -796,31 +796,6 @@ def evaluate(seed, kind, idx, stats, violations, samples, distinct, jobs_out, wa
     return evals
 
 
-def pre_build(ctx):
-    # re-translate the import pipeline (Gen/ImportPipeline_gen.v, tied by Proofs/ImportTie.v)
-    import translate_import
-
-    ok, msg = translate_import.regenerate()
-    if not ok:
-        raise RuntimeError("translator refused the import sources: %s" % msg)
-    import translate_numpy_utils
-
-    ok, msg = translate_numpy_utils.regenerate_relabel()
-    if not ok:
-        raise RuntimeError("translator refused _import_segmentation.py: %s" % msg)
-    # re-translate the export side (Gen/ExportPipeline_gen.v, tied by Proofs/ExportTie.v)
-    import translate_export
-
-    ok, msg = translate_export.regenerate()
-    if not ok:
-        raise RuntimeError("translator refused the export sources: %s" % msg)
-    import translate_utils
-
-    ok, msg = translate_utils.regenerate()
-    if not ok:
-        raise RuntimeError("translator refused _utils.py: %s" % msg)
-
-
 def run(ctx):
     n_edit, n_fresh, n_tid = (40, 16, 40) if ctx.quick() else (260, 100, 400)
     n_zero = 8 if ctx.quick() else 40
